@@ -66,6 +66,11 @@ def gen(rng, k):
             a2, b2 = np.array([rng.uniform(20, 30), rng.uniform(8, 14)]), np.array([rng.uniform(-14, -8), rng.uniform(20, 30)])
             sel = rng.choice(len(grid), size=int(rng.integers(3, 8)), replace=False)
             pts += [zero + grid[s][0] * a2 + grid[s][1] * b2 for s in sel]
+            if (k // 7) % 2 == 1:
+                # a split central spot: one more peak a pixel or two away from the zero point (closer than the tolerance); it is
+                # an ordinary peak, not the zero point
+                ang_ = rng.uniform(0, 2 * np.pi)
+                pts.append(zero + float(rng.uniform(1.0, 2.2)) * np.array([np.sin(ang_), np.cos(ang_)]))
         pts += [zero + rng.uniform(-60, 60, 2) for _ in range(int(rng.integers(0, 4)))]
     elif kind == "offzero":
         # the zero point (first peak) sits a few pixels off the lattice the other peaks form (a poorly refined central beam),
